@@ -61,6 +61,7 @@ func genPlainC(r *sim.Rand, tier, prop string) *sim.Case {
 		c.Cfg["bg"] = 1
 		c.Cfg["memtable_size"] = 1 << 20
 		c.Cfg["layers"] = int64(r.Pick(2, 2, 3))
+		c.Cfg["arena_size"] = 1 << 20 // several memtables per run: not the shipped 128 MiB arenas (cleared on allocation)
 		c.Cfg["l0_tables"] = 16
 		nb := 1 + r.Intn(3)
 		for i := 0; i < nb; i++ {
@@ -251,6 +252,7 @@ func (m *modeC) layout(layers int) {
 	defer func() { w.Sched.Ignore = saved }()
 	lsm := w.DB.VerifLSM()
 	for g := 1; g <= layers; g++ {
+		sim.Beat()
 		for ki := 0; ki < m.nkeys; ki++ {
 			c := &call{task: -1, txn: -1, key: ki, kind: "pset", invoke: m.next()}
 			c.val = fmt.Sprintf("g%d.%d:%s", g, ki, strings.Repeat("y", 40))
